@@ -6,6 +6,8 @@
    up <dst> <src> <act> <perms>           IntentionMutation upsert
    del <dst> <src>                        IntentionMutation delete (by name)
    lcreate <dst> <src> <act> <id>         IntentionMutation create (legacy API on config entries)
+   lupdate <id> <src> <act>               IntentionMutation update by legacy id
+   ldelid <id>                            IntentionMutation delete by legacy id
    lset <id> <src> <dst> <act>            LegacyIntentionSet
    ldel <id>                              LegacyIntentionDelete
    match s|d <name>                       IntentionMatch
@@ -85,6 +87,15 @@ def step (st : Store) (toks : List String) : Store × String :=
     | some dst, some src, some act, some id =>
       res (applyOpE st (.lcreate dst { peer := [], name := src, act := act, perms := 0, prec := 0, lid := id }))
     | _, _, _, _ => (st, "bad-op")
+  | ["lupdate", id, src, act] =>
+    match decB id, decB src, decAct act with
+    | some id, some src, some act =>
+      res (applyOpE st (.lupdate id { peer := [], name := src, act := act, perms := 0, prec := 0, lid := id }))
+    | _, _, _ => (st, "bad-op")
+  | ["ldelid", id] =>
+    match decB id with
+    | some id => res (applyOpE st (.ldelid id))
+    | none => (st, "bad-op")
   | ["lset", id, src, dst, act] =>
     match decB id, decB src, decB dst, decAct act with
     | some id, some src, some dst, some act =>
